@@ -108,6 +108,8 @@ def build(rnd, loc, depth, files, counter, prefix):
             lines.append(f"systemLog('ld ' + ld{counter[0]}(77, 'shadow'))")
         else:
             lines.append(inc_line)
+            if depth >= 1 and rnd.random() < 0.12:
+                lines.append(inc_line)  # the same file named twice in a row: two include lines, two fetches, two runs
         if rnd.random() < 0.1:
             continue  # missing file: never created
         build(rnd, child, depth + 1, files, counter, prefix)
@@ -208,6 +210,19 @@ def check_tree(root, main, files, acc, api, prefix, only_fault=None):
     bare_script = api[0]
     model = bare_script.parse_script(main)
     base_case = {'root': root, 'main': main, 'files': {k: v for k, v in files.items()}, 'prefix': prefix}
+    # (the reference executes the models the real parser returns: first make sure every include LINE of every text is in its model -
+    # also a line that names the same file as the line before it)
+    def count_includes(stmts):
+        return sum(len(st['include']['includes']) if 'include' in st else (count_includes(st['function']['statements']) if 'function' in st else 0) for st in stmts)
+    for fname, ftext in [('<main>', main)] + sorted((str(k), v) for k, v in files.items()):
+        want_lines = len(re.findall(r'(?m)^[ \t]*include[ \t]', ftext))
+        try:
+            got_lines = count_includes(bare_script.parse_script(ftext)['statements'])
+        except Exception:  # pylint: disable=broad-except
+            continue
+        if got_lines != want_lines:
+            acc.violation('include-line-not-in-the-model', f'{fname}: {want_lines} include lines, {got_lines} includes in the parsed model\n{ftext}', {'root': root, 'main': main, 'files': dict(files), 'prefix': prefix, 'fault': 'none'})
+            return
     ref0 = run_ref(model, root, files, {}, api, prefix)
     nfetch = len(ref0['fetches'])
     plans = [({}, 'none')]
